@@ -33,8 +33,55 @@ def skey(node):
 # ---------------------------------------------------------------------------
 # C04
 # ---------------------------------------------------------------------------
+import copy
+
+class _Subst(ast.NodeTransformer):
+    def __init__(self, mapping):
+        self.mapping = mapping
+    def visit_Name(self, node):
+        if node.id in self.mapping:
+            return copy.deepcopy(self.mapping[node.id])
+        return node
+
+def inline_record_methods(fn, rec_cls):
+    """statement-level calls `<name>.<method>(args)` of methods defined by the record class are replaced by the method body
+    (self -> receiver, parameters -> argument expressions).  Only straight-line methods without return values are inlined, so that a
+    refactoring which moves the record's reset / bookkeeping into helper methods is analysed exactly like the open-coded form."""
+    methods = {n.name: n for n in rec_cls.body if isinstance(n, ast.FunctionDef) and n.name not in ('__init__', '__repr__', '__str__')}
+    if not methods:
+        return fn
+    fn = copy.deepcopy(fn)
+    def rewrite(stmts):
+        out = []
+        for st in stmts:
+            for field in ('body', 'orelse', 'finalbody'):
+                if hasattr(st, field) and isinstance(getattr(st, field), list):
+                    setattr(st, field, rewrite(getattr(st, field)))
+            if isinstance(st, ast.Try):
+                for h in st.handlers:
+                    h.body = rewrite(h.body)
+            call = st.value if isinstance(st, ast.Expr) and isinstance(st.value, ast.Call) else None
+            if call is not None and isinstance(call.func, ast.Attribute) and isinstance(call.func.value, ast.Name) and call.func.attr in methods:
+                m = methods[call.func.attr]
+                params = [a.arg for a in m.args.args]
+                simple = all(not isinstance(x, (ast.Return,)) or x.value is None for x in ast.walk(m)) and not any(isinstance(x, (ast.For, ast.While, ast.Try, ast.With)) for x in ast.walk(m))
+                if simple and len(call.args) == len(params) - 1 and not call.keywords:
+                    mapping = {params[0]: call.func.value}
+                    for p_, a_ in zip(params[1:], call.args):
+                        mapping[p_] = a_
+                    body = [copy.deepcopy(b) for b in m.body if not (isinstance(b, ast.Expr) and isinstance(b.value, ast.Constant))]
+                    body = [_Subst(mapping).visit(b) for b in body if not isinstance(b, ast.Return)]
+                    for b in body:
+                        ast.fix_missing_locations(b)
+                    out.extend(body or [ast.copy_location(ast.Pass(), st)])
+                    continue
+            out.append(st)
+        return out
+    fn.body = rewrite(fn.body)
+    return fn
+
 def reassembly(chk, program):
-    fn = program.fn('decoder', f"{CLS}._decode_fast_message")
+    fn = inline_record_methods(program.fn('decoder', f"{CLS}._decode_fast_message"), program.cls('decoder', 'fast_pgn_metadata'))
     g = CFG(fn)
     ex = sym.SymExec(fn)
     try:
@@ -42,7 +89,7 @@ def reassembly(chk, program):
     except sym.Unsupported as u:
         raise AnalysisError(f"_decode_fast_message: {u}")
     rec_cls = program.cls('decoder', 'fast_pgn_metadata')
-    rinit = program.fn('decoder', 'fast_pgn_metadata.__init__')
+    rinit = inline_record_methods(program.fn('decoder', 'fast_pgn_metadata.__init__'), rec_cls)
     rec_attrs = sorted({t.attr for n in ast.walk(rinit) if isinstance(n, (ast.Assign, ast.AnnAssign)) for t in (n.targets if isinstance(n, ast.Assign) else [n.target])
                         if isinstance(t, ast.Attribute) and isinstance(t.value, ast.Name) and t.value.id == 'self'})
     if len(rec_attrs) < 3:
